@@ -2231,6 +2231,7 @@ func (m *Msg) WriteTo(writer io.Writer) (int64, error) {
 
 	if m.hasSMIME() {
 		if err := m.signMessage(); err != nil {
+			m.headerCount = 0
 			return 0, err
 		}
 	}
@@ -2923,6 +2924,8 @@ func fileFromReader(name string, reader io.Reader) (*File, error) {
 		Writer: func(writer io.Writer) (int64, error) {
 			readBytes, copyErr := io.Copy(writer, byteReader)
 			if copyErr != nil {
+				// rewind, so that the next render starts at the beginning again
+				_, _ = byteReader.Seek(0, io.SeekStart)
 				return readBytes, copyErr
 			}
 			_, copyErr = byteReader.Seek(0, io.SeekStart)
@@ -2953,6 +2956,8 @@ func fileFromReadSeeker(name string, reader io.ReadSeeker) *File {
 		Writer: func(writer io.Writer) (int64, error) {
 			readBytes, err := io.Copy(writer, reader)
 			if err != nil {
+				// rewind, so that the next render starts at the beginning again
+				_, _ = reader.Seek(0, io.SeekStart)
 				return readBytes, err
 			}
 			_, err = reader.Seek(0, io.SeekStart)
